@@ -123,30 +123,36 @@ def sortMap (cs : List Ch) : Option (List (String × Nat)) :=
   let n := deps.length + cs.length + 2
   sortMapGo deps (n * n + n) keys {}
 
-/-- `detachReferences(changes)`; new changes get ids from `nextId` on. -/
+/-- one step of `detachReferences`: (planned, deferred, next fresh identity). -/
+def detachStep (acc : List Ch × List Ch × Nat) (c : Ch) : List Ch × List Ch × Nat :=
+  let (planned, deferred, nid) := acc
+  match c.kind with
+  | .add =>
+    let ext := c.fks.filter (fun fk => fk.ref != c.table)
+    let self := c.fks.filter (fun fk => fk.ref == c.table)
+    if ext.isEmpty then (planned ++ [c], deferred, nid)
+    else (planned ++ [{ c with id := nid, fks := self }],
+          deferred ++ [{ id := nid + 1, kind := .modify, table := c.table, subs := ext.map Sub.addFK }], nid + 2)
+  | .drop =>
+    let fks := c.fks.filter (fun fk => fk.ref != c.table)
+    if fks.isEmpty then (planned, deferred ++ [c], nid)
+    else (planned ++ [{ id := nid, kind := .modify, table := c.table, subs := fks.map Sub.dropFK }],
+          deferred ++ [{ c with id := nid + 1, fks := [] }], nid + 2)
+  | .modify =>
+    let fks := c.subs.filter (fun s => match s with | .addFK _ => true | _ => false)
+    let rest := c.subs.filter (fun s => match s with | .addFK _ => false | _ => true)
+    let deferred := if fks.isEmpty then deferred else deferred ++ [{ c with id := nid, subs := fks }]
+    let planned := if rest.isEmpty then planned else planned ++ [{ c with id := nid + 1, subs := rest }]
+    (planned, deferred, nid + 2)
+
+/-- an identity larger than every identity in use (`id` stands for Go pointer identity: the changes
+`detachReferences` allocates are new objects). -/
+def freshBase (cs : List Ch) : Nat := (cs.map (·.id)).foldl max 0 + 1
+
+/-- `detachReferences(changes)`. -/
 def detachReferences (cs : List Ch) : List Ch :=
-  let step := fun (acc : List Ch × List Ch × Nat) (c : Ch) =>
-    let (planned, deferred, nid) := acc
-    match c.kind with
-    | .add =>
-      let ext := c.fks.filter (fun fk => fk.ref != c.table)
-      let self := c.fks.filter (fun fk => fk.ref == c.table)
-      if ext.isEmpty then (planned ++ [c], deferred, nid)
-      else (planned ++ [{ c with id := nid, fks := self }],
-            deferred ++ [{ id := nid + 1, kind := .modify, table := c.table, subs := ext.map Sub.addFK }], nid + 2)
-    | .drop =>
-      let fks := c.fks.filter (fun fk => fk.ref != c.table)
-      if fks.isEmpty then (planned, deferred ++ [c], nid)
-      else (planned ++ [{ id := nid, kind := .modify, table := c.table, subs := fks.map Sub.dropFK }],
-            deferred ++ [{ c with id := nid + 1, fks := [] }], nid + 2)
-    | .modify =>
-      let fks := c.subs.filter (fun s => match s with | .addFK _ => true | _ => false)
-      let rest := c.subs.filter (fun s => match s with | .addFK _ => false | _ => true)
-      let deferred := if fks.isEmpty then deferred else deferred ++ [{ c with id := nid, subs := fks }]
-      let planned := if rest.isEmpty then planned else planned ++ [{ c with id := nid + 1, subs := rest }]
-      (planned, deferred, nid + 2)
-  let (planned, deferred, _) := cs.foldl step ([], [], 1000)
-  planned ++ deferred
+  let r := cs.foldl detachStep ([], [], freshBase cs)
+  r.1 ++ r.2.1
 
 /-- `DetachCycles(changes)` -/
 def detachCycles (cs : List Ch) : List Ch :=
